@@ -88,7 +88,6 @@ theorem good_estep {s s' : St} (st : EStep s s') : Good s s' := by
   cases st with
   | incReg => exact good_of_same rfl rfl
   | emit i _ _ hl _ => exact good_push_plain s i hl
-  | branch i _ _ hl _ _ => exact good_push_plain s i hl
   | incEmit i _ _ hl _ => exact (good_of_same (s := s) (s' := s.incReg) rfl rfl).trans (good_push_plain _ i hl)
   | addErr k v l o => exact good_of_same rfl rfl
   | declare n v i _ _ hl _ _ =>
@@ -100,6 +99,11 @@ theorem good_esteps {s s' : St} (st : ESteps s s') : Good s s' := by
   induction st with
   | refl => exact Good.refl _
   | tail _ st ih => exact ih.trans (good_estep st)
+
+theorem good_bsteps {s s' : St} (h : BSteps s s') : Good s s' := by
+  obtain ⟨s1, h1, rfl | ⟨i, rfl, _, _, hl, _⟩⟩ := h
+  · exact good_esteps h1
+  · exact (good_esteps h1).trans (good_push_plain _ i hl)
 
 theorem good_fnReturn (g : Globals) (resTy : Ty) (e : Expr) (rc : Bool) (s : St) : Good s (fnReturn g resTy e rc s).1 := by
   obtain ⟨s2, h, hq | ⟨r, hq⟩⟩ := fnReturn_split g resTy e rc s
@@ -220,7 +224,7 @@ theorem ifPrologue_spec (g : Globals) (cond : IfCond) (dup isElse : Bool) (le : 
   cases le with
   | some l =>
     dsimp only
-    have gc := good_esteps (esteps_ifCondCalc g cond lb le2 l isElse s2)
+    have gc := good_bsteps (esteps_ifCondCalc g cond lb le2 l isElse s2)
     have h3 := h2.step gc
     have pb : Pending s s2 lb := ⟨b_reg, by rw [ctx2]; exact unset_of_new _ b_new, b_new⟩
     have pe : Pending s s2 le2 := ⟨e_reg, by rw [ctx2]; exact unset_of_new _ e_new, e_new⟩
@@ -241,7 +245,7 @@ theorem ifPrologue_spec (g : Globals) (cond : IfCond) (dup isElse : Bool) (le : 
     have d_ne_b : ln ≠ lb := by intro h; exact f3n ((f2l ln).mpr (Or.inr ((f1l ln).mpr (Or.inl h))))
     have d_ne_e : ln ≠ le2 := by intro h; exact f3n ((f2l ln).mpr (Or.inl h))
     have ctx3 : s3.root.context = s.root.context := by rw [f3c, ctx2]
-    have gc := good_esteps (esteps_ifCondCalc g cond lb le2 ln isElse s3)
+    have gc := good_bsteps (esteps_ifCondCalc g cond lb le2 ln isElse s3)
     have h3 := h2'.step gc
     have mk : ∀ l, l ∈ s3.root.labels → l ∉ s.root.labels → Pending s s3 l := fun l hr hn =>
       ⟨hr, by rw [ctx3]; exact unset_of_new _ hn, hn⟩
